@@ -98,6 +98,8 @@ def small_geometries(rng, hs, nc):
         g.append((name + "[:%d]" % nc, x[:nc].copy(), y[:nc].copy()))
     for sp in (20, 72, 73, 80):
         g.append(("line%d" % sp, np.zeros(nc, dtype=np.int64), np.arange(nc) * float(sp)))
+    # three sites at the same place next to sites 72 um away: a retained weight (0.00506) that is tiny after normalisation
+    g.append(("near_far", np.zeros(nc, dtype=np.int64), np.array([0.0, 0.0, 0.0, 72.0, 72.0, 72.0, 144.0][:nc])))
     g.append(("random", np.array([rng.randrange(0, 90) for _ in range(nc)], dtype=np.int64),
               np.array([float(rng.randrange(0, 120)) for _ in range(nc)])))
     xs = [rng.randrange(0, 40) for _ in range(nc)]
@@ -321,7 +323,7 @@ def part_interp(ctx, st, model):
         for b in oracle_interp(x, y, labels, data, out, c["dtype"]):
             ctx.fail(b, d, {"op": "interp", "kind": b.split()[0]})
         key = (c["geom"], tuple(labels), x.tobytes(), y.tobytes())
-        if key not in weight_checked and (len(labels) <= 7 or len(weight_checked) % 2 == 0):
+        if key not in weight_checked:
             weight_checked.add(key)
             try:
                 for b in oracle_weights(x, y, labels):
@@ -472,6 +474,7 @@ def part_rule(ctx, st, model):
     n = 600 if ctx.thorough() else 110
     inputs, outs, descs = [], [], []
     label_hist = {0: 0, 1: 0, 2: 0, 3: 0}
+    ends = {"recordings": 0, "xcor_hf_first_and_last_exactly_zero": 0}
     for k in range(n):
         x, fs = random_recording(rng, k)
         nc = x.shape[0]
@@ -510,7 +513,21 @@ def part_rule(ctx, st, model):
                           "psd_hf": [float(v) for v in feats["psd_hf"]], "labels": [int(v) for v in lab]})
             for v in lab:
                 label_hist[int(v)] += 1
-            # oracle on the implementation alone: label 3 only on one block ending at the last channel
+            if nc >= 1:
+                ends["recordings"] += 1
+                ends["xcor_hf_first_and_last_exactly_zero"] += int(float(feats["xcor_hf"][0]) == 0.0 and
+                                                                   float(feats["xcor_hf"][-1]) == 0.0)
+            # oracle on the implementation alone: precedence noisy (2) over dead (1) over the rest
+            with np.errstate(invalid="ignore"):
+                hfv = np.asarray(feats["xcor_hf"], dtype=float)
+                psdv = np.asarray(feats["psd_hf"], dtype=float)
+                thr_psd = up if up is not None else (0.02 if fs > 2600 else 1.4)
+                noisy = (psdv > thr_psd) | (hfv > sim[1])
+                dead = (sim[0] > hfv) & ~noisy
+            if np.any(lab[noisy] != 2) or np.any(lab[dead] != 1) or np.any(np.isin(lab[~noisy & ~dead], [1, 2])):
+                ctx.fail("labels 1/2 do not follow the thresholds with precedence noisy over dead", descs[-1],
+                         {"op": "rule", "kind": "precedence"})
+            # label 3 only on one block ending at the last channel
             three = np.flatnonzero(lab == 3)
             if three.size:
                 lf = np.asarray(feats["xcor_lf"], dtype=float)
@@ -527,6 +544,7 @@ def part_rule(ctx, st, model):
                 st.nontrivial.add(("rule", tuple(int(v) for v in lab), nc, fs, up))
     common.correspondence(ctx, PROP, HEADER, inputs, outs, lambda i: descs[i], n_kernel=16, shard=8)
     ctx.coverage["rule_label_histogram"] = label_hist
+    ctx.measurements["detrended_coherence_at_probe_ends"] = ends
     if descs:
         d = dict(descs[len(descs) // 3])
         for key in ("xcor_hf", "xcor_lf", "psd_hf"):
@@ -793,7 +811,7 @@ def run(ctx):
     return common.finish(
         ctx, TRUSTED,
         rule="interp: every label vector over {0,1,2,3} on probes of 1..5 (quick) / 1..7 (thorough) channels in up to "
-             "10 geometries (NP1/NP2/NPultra prefixes, lines of pitch 20/72/73/80 um, random, duplicate sites) plus "
+             "11 geometries (NP1/NP2/NPultra prefixes, lines of pitch 20/72/73/80 um, coincident+far sites, random, duplicate sites) plus "
              "random clustered label vectors on the four 384-channel trace headers, small integer/dyadic data, float64 "
              "and float32; each run through interpolate_bad_channels, the property oracle (untouched rows bit-identical, "
              "range of neighbours, zero when isolated, weights read off with identity data) and the Qc model; "
